@@ -210,9 +210,35 @@ def check_slots(ck, R1):
     return loop, br
 
 
+def check_batch_goes_through_runner(ck, R):
+    """call_batch / call decide nothing themselves: every element is handed to memento_run_batch, and an
+    outcome (value or failure) is only ever taken from what that call returned.  A front end that asks the
+    store first (a fail-fast on memoized failures, a shortcut for memoized values) raises / returns for
+    one element before the earlier ones were computed — not what element-wise calls in order give."""
+    for q in ("base.MementoFunctionBase.call_batch", "base.MementoFunctionBase.call"):
+        fa = FA(ck, q)
+        runs = fa.nodes_all(fa.calls("memento_run_batch"))
+        ck.need(runs, "%s: memento_run_batch call not found" % q)
+        store_calls = [c for c in fa.calls() if isinstance(c.func, ast.Attribute) and (A.dotted(c.func.value) or "").split(".")[0] in ("storage_backend", "storage")
+                       or A.call_attr(c) == "process_existing_memento"]
+        ck.ob(R, fa.key(None, "no-store-access-in-front-end"), not store_calls,
+              "the front end does not consult the store itself" if not store_calls else
+              "`%s`: %s consults the store outside the runner, so an element can be answered (or a memoized failure raised) before the elements "
+              "in front of it were computed" % (A.short(store_calls[0], 60), q.split(".")[-1]), fa.where(store_calls[0]) if store_calls else fa.where())
+        for r in fa.stmts(ast.Raise):
+            if r.exc is None or (isinstance(r.exc, ast.Call) and isinstance(r.exc.func, ast.Name) and r.exc.func.id[:1].isupper()):
+                continue  # argument validation raises a freshly constructed error
+            ok = all(fa.cfg.must_pass(runs, i) for i in fa.nodes(r)) and any(x.startswith("call:memento_run_batch") for x in fa.deps(r.exc))
+            ck.ob(R, fa.key(r, "raise-after-run"), ok, "an element's exception is raised only after the whole batch went through the runner" if ok else
+                  "`%s` can run before / without memento_run_batch: the exception raised is not the first one of an in-order evaluation"
+                  % A.short(r, 50), fa.where(r))
+
+
 def check(ck):
     from .memo import check_new_memo_tables
     ck.run(check_new_memo_tables, ck, "C15.M1", ('runner_local', 'base', 'storage_base'))
+    ck.rule("C15.R6", "call / call_batch hand every element to memento_run_batch and take outcomes only from its result", 4)
+    ck.run(check_batch_goes_through_runner, ck, "C15.R6")
     R1, R2, R3, R4 = ("C15.R%d" % i for i in range(1, 5))
     ck.rule(R2, "alignment: the bulk pre-check is a comprehension over the same sequence, in the same order, that the "
                 "loop enumerates; existing mementos are indexed with the loop index", 3)
